@@ -63,8 +63,9 @@ pub type Sink = Box<dyn FnMut(&Ev) + Send>;
 #[derive(Clone)]
 pub enum ProbeSel {
     None,
-    /// every step of the given thread(s) (bitmask), optionally only every k-th
-    Steps { threads: u32, every: u64 },
+    /// every step of the given thread(s) (bitmask), optionally only every k-th, at most `max`
+    /// probe rounds per execution (long executions would otherwise cost steps x probe length)
+    Steps { threads: u32, every: u64, max: u64, from: u64 },
     /// exactly these global steps
     At(Vec<u64>),
 }
@@ -336,7 +337,7 @@ impl Sched {
         // probe?
         let do_probe = match &inn.probe_sel {
             ProbeSel::None => false,
-            ProbeSel::Steps { threads, every } => (threads >> me) & 1 == 1 && step % (*every).max(1) == 0,
+            ProbeSel::Steps { threads, every, max, from } => (threads >> me) & 1 == 1 && step >= *from && step % (*every).max(1) == 0 && inn.probes_run < *max,
             ProbeSel::At(v) => {
                 while inn.probe_idx < v.len() && v[inn.probe_idx] < step {
                     inn.probe_idx += 1;
